@@ -224,6 +224,116 @@ def c06(tier):
     return v.finish()
 
 
+# ------------------------------------------------------------------------------------------ C13
+
+ACKQ_CFG = """SPECIFICATION %(spec)s
+CONSTANTS
+ Ids = %(ids)s
+ AckIds = %(ackids)s
+ Kinds = %(kinds)s
+ Tags = %(tags)s
+ AckTags = %(acktags)s
+ AckTypes = %(acktypes)s
+ WithPing = %(ping)s
+ WithBad = %(bad)s
+ MaxLen = %(maxlen)d
+ InitSize = 16
+ MaxSteps = 0
+ Hist = FALSE
+ RegBias = 1
+"""
+ACKQ_GRAPH_TAIL = """INVARIANTS TypeOK EmitState
+PROPERTIES FifoRelease
+ACTION_CONSTRAINT EmitEdge
+VIEW AbsView
+"""
+ACKQ_TRACE_TAIL = """INVARIANTS ShadowOK Report
+POSTCONDITION Accepted
+"""
+ACKQ_GRAPHS = [
+    ("ackq-qos2", dict(ids="{1,2,3}", ackids="{1,2,3,9}", kinds='{"pub2"}', tags='{"x","y"}', acktags='{"x"}',
+                       acktypes='{"PUBREC","PUBREL","PUBCOMP"}', ping="FALSE", bad="FALSE", maxlen=3)),
+    ("ackq-mixed", dict(ids="{1,2}", ackids="{1,2,9}", kinds='{"pub1","sub","unsub"}', tags='{"x","y"}', acktags='{"x","y"}',
+                        acktypes='{"PUBACK","SUBACK","UNSUBACK"}', ping="FALSE", bad="FALSE", maxlen=2)),
+    ("ackq-ping", dict(ids="{1,2}", ackids="{1,9}", kinds='{"pub1"}', tags='{"x"}', acktags='{"x"}',
+                       acktypes='{"PUBACK","PUBREC"}', ping="TRUE", bad="TRUE", maxlen=2)),
+]
+ACKQ_TRACE_CONSTS = dict(ids="{}", ackids="{}", kinds='{"pub1","pub2","sub","unsub"}', tags='{"x","y"}', acktags='{"x","y"}',
+                         acktypes='{"PUBACK","PUBREC","PUBREL","PUBCOMP","SUBACK","UNSUBACK"}', ping="TRUE", bad="TRUE",
+                         maxlen=1000000)
+
+
+def validate_trace(v, module, cfg, trace_text, label, what, timeout=900, dfs=False):
+    """Direction B: TLC decides whether the recorded trace is a behaviour of the trace specification.
+    Returns (accepted, matched_prefix_length, report records)."""
+    nev = trace_text.count("\n")
+    r = core.run_tlc(module, cfg, workers=1, timeout=timeout, extra_files={"trace.ndjson": trace_text}, dfs=dfs)
+    v.cov["states"] += r.distinct
+    v.cov["transitions"] += r.generated
+    v.cov["tlc_runs"].append(dict(name=label, cmd=r.cmd, **r.stats()))
+    reports = [x for x in core.behaviours(r.lines) if isinstance(x, dict) and "report" in x]
+    if r.violation:
+        # either the trace could not be continued (postcondition) or an invariant of the specification
+        # failed on a recorded execution (every invariant is evaluated at every step of the trace):
+        # both are observations about the real code
+        return False, r.depth, reports, r.violation
+    return True, nev, reports, None
+
+
+@check("C13")
+def c13(tier):
+    v = Verdict("C13", tier)
+    thorough = tier == "thorough"
+    for name, consts in ACKQ_GRAPHS:
+        cfg = ACKQ_CFG % dict(consts, spec="Spec") + ACKQ_GRAPH_TAIL
+        r = core.cached_tlc(name, "AckQueue", cfg, workers=1, timeout=600)
+        v.tlc(name, r)
+        gpath, ns, ne = write_graph(name, r)
+        v.cov["parts"][name + ":graph"] = {"states": ns, "edges": ne}
+        v.cov["distinct_nontrivial"] += ne
+        depth = {"ackq-qos2": 5, "ackq-mixed": 4, "ackq-ping": 6}[name] + (1 if thorough else 0)
+        graph_walks(v, "ackq", gpath, [dict(mode="paths", depth=depth), dict(mode="cover"),
+                                       dict(mode="random", walks=30 if not thorough else 300, len=300, seed=core.seed())])
+    # direction B: long random histories with hundreds of requests in flight
+    ntr, nev = (24, 2500) if not thorough else (200, 4000)
+    tmp = tempfile.mkdtemp(prefix="verif-c13-")
+    try:
+        tf = os.path.join(tmp, "trace.ndjson")
+        p = core.run_harness(["ackqtrace", "-seed", str(core.seed()), "-traces", str(ntr), "-events", str(nev), "-out", tf])
+        if p.returncode != 0:
+            raise Infra("ackqtrace failed: %s" % p.stderr[-2000:])
+        res = json.loads(p.stdout.strip().splitlines()[-1])
+        v.mismatches(res.get("mismatches"), res.get("counts"))
+        text = open(tf).read()
+    finally:
+        import shutil
+        shutil.rmtree(tmp, ignore_errors=True)
+    ok, matched, reports, why = validate_trace(v, "AckQueueTrace", ACKQ_CFG % dict(ACKQ_TRACE_CONSTS, spec="TraceSpec") + ACKQ_TRACE_TAIL,
+                                               text, "AckQueueTrace", "ack queue")
+    lines = text.splitlines()
+    v.cov["parts"]["recorded-traces"] = {"traces": ntr, "events": len(lines), "matched_prefix": matched,
+                                         "max_in_flight": res.get("counts", {}).get("max_in_flight", 0),
+                                         "spec_report": reports[-1]["report"] if reports else None}
+    v.cov["traces_validated_against_impl"] += ntr
+    v.cov["evaluations"] += len(lines)
+    if not ok:
+        lo = max(0, matched - 6)
+        v.mismatch({"what": "recorded ack-queue trace rejected by AckQueueTrace at event %d (%s): %s" % (
+            matched, why, lines[matched - 1] if 0 < matched <= len(lines) else "?"),
+            "replay": {"seed": core.seed(), "events": lines[lo:matched + 1]}})
+    elif reports and (reports[-1]["report"]["n"] < 3 or reports[-1]["report"]["wrapped"] < 1):
+        raise Infra("recorded traces never grew the ring while wrapped: %s" % reports[-1])
+    v.add_samples([json.loads(x) for x in lines[40:46]], 6)
+    v.cov["rule"] = ("every path up to the stated depth, a transition cover and seeded random walks through the TLC-generated state "
+                     "graphs of AckQueue (3 configurations), each Acked() result compared entry by entry (type, state, id, request bytes, "
+                     "ack bytes, callback identity; caller buffers overwritten after every call); plus recorded traces of random drivers "
+                     "validated by TLC against AckQueueTrace. distinct_nontrivial = graph edges")
+    v.cov["exhaustive"] = True
+    v.assumptions += ["one caller at a time per queue (as in the library: the queue has its own mutex)",
+                      "expected request/ack bytes are produced with the library's encoder (its fidelity is C03's subject)"]
+    return v.finish()
+
+
 # ------------------------------------------------------------------------------------------ misc
 
 def setup():
